@@ -26,13 +26,15 @@ class FragReturn(Exception):
         self.value = value
 
 
-def run_fragment(body: Sequence[ast.stmt], names: Dict[str, Any], attrs: Optional[Dict[str, Any]] = None, max_steps: int = 20000) -> Dict[str, Any]:
+def run_fragment(body: Sequence[ast.stmt], names: Dict[str, Any], attrs: Optional[Dict[str, Any]] = None, max_steps: int = 20000, funcs: Optional[Dict[str, ast.FunctionDef]] = None) -> Dict[str, Any]:
     env = dict(names)
     attrs = dict(attrs or {})
     steps = [0]
 
     def fold(e):
-        return Folder(env, attrs).fold(e)
+        f = Folder(env, attrs)
+        f.funcs = dict(funcs or {})
+        return f.fold(e)
 
     def bind(t, v):
         if isinstance(t, ast.Name):
